@@ -1133,3 +1133,29 @@ Qed.
 Example counting_while_subscribing_releases_early :
   aa_fired (aand_new CountWhileSubscribing [true; false]) = true /\ npending [true; false] = 1%nat.
 Proof. split; reflexivity. Qed.
+
+(* ------------------------------------------------------------------ *)
+(* C09, third-party introductions: while a gift is outstanding the gifter's proxy is alive (so no decref is sent and the
+   owner keeps the object), whatever the gifter's application does with its own reference *)
+
+Lemma gift_table_pins_proxy_spec : gift_table_pins_proxy = true.
+Proof. reflexivity. Qed.
+
+Lemma gifts_nonneg ops : forall g, 0 <= g_gifts g -> 0 <= g_gifts (grun g ops).
+Proof.
+  induction ops as [|o r IH]; intros g H; cbn [grun]; [exact H|]. apply IH.
+  destruct o; cbn [gstep]; [destruct (g_app g); cbn; lia | cbn; lia | destruct (0 <? g_gifts g) eqn:E; cbn; [apply Z.ltb_lt in E; lia | lia]].
+Qed.
+
+Theorem gift_outstanding_keeps_proxy ops :
+  let g := grun ginit ops in 0 < g_gifts g -> gproxy_alive gift_table_pins_proxy g = true.
+Proof.
+  intros g H. unfold gproxy_alive. rewrite gift_table_pins_proxy_spec. apply Z.ltb_lt in H. rewrite H.
+  cbn [andb]. apply Bool.orb_true_r.
+Qed.
+
+(* the statement discriminates: without the proxy in the table entry, give-away followed by the application's drop leaves
+   an outstanding gift whose proxy is dead *)
+Example unpinned_gift_dies :
+  let g := grun ginit [GiveAway; AppDrops] in 0 < g_gifts g /\ gproxy_alive false g = false.
+Proof. cbn. split; [lia | reflexivity]. Qed.
